@@ -418,6 +418,63 @@ def _sym(v: Any) -> Any:
     return sp.Float(mpmath.nstr(v.real, 80), 80)
 
 
+def base_candidates(scalable: list, drivable: list) -> list[dict]:
+    """the default tuple first, then single and pairwise magnitude deviations, simplest first"""
+    menu = [1e-3, 1e3, 0.1, 10.0, -1.0]
+    cands: list[dict] = [{}]
+    if any(p.kind == "qvector" for p in drivable):
+        cands.append({"__vshape__": "axis"})  # mutually perpendicular vector arguments
+    for p in scalable:
+        for s_ in menu:
+            cands.append({p.name: s_})
+    for (p, q) in itertools.combinations(scalable, 2):
+        for s_, t_ in itertools.product(menu[:4], repeat=2):
+            cands.append({p.name: s_, q.name: t_})
+    return cands[:121]
+
+
+def near_tuple(base_scales: dict, scalable: list, variant: str) -> dict:
+    """a tuple that differs from the base tuple in the fourth significant digit of its magnitudes
+    (4e-4 is the largest step that leaves every menu magnitude the same to 3 digits; different
+    steps per parameter, because many laws depend on ratios only)"""
+    near = dict(base_scales)
+    for i, p in enumerate(scalable):
+        if p.kind != "int" and (variant == "all" or p.kind != "number"):
+            near[p.name] = base_scales.get(p.name, 1.0) * (1 + 4e-4 * (1 + i % 3) / 3)
+    return near
+
+
+def _plain(x: Any) -> Any:
+    return [_plain(y) for y in x] if isinstance(x, list) else mpmath.nstr(x, 45)
+
+
+def _unplain(x: Any) -> Any:
+    return [_unplain(y) for y in x] if isinstance(x, list) else mpmath.mpmathify(x)
+
+
+def first_call_results(fc: FunctionCase, scalable: list, drivable: list) -> Any:
+    """(run in a forked child, before the function was ever called in this process) for the first
+    candidate whose near tuples are accepted: the results of the near tuples as first calls"""
+    for sc in base_candidates(scalable, drivable):
+        out = {}
+        for variant in ("all", "quantities"):
+            near = near_tuple(sc, scalable, variant)
+            if near == sc:
+                continue
+            st, r, _ = fc.call(near, {})
+            if st != "returned":
+                out = {}
+                break
+            try:
+                out[variant] = _plain(si_struct(r))
+            except Exception:  # pylint: disable=broad-except
+                out = {}
+                break
+        if out:
+            return {"scales": sc, "results": out}
+    return None
+
+
 def explore_function(fc: FunctionCase, bound: int) -> dict:
     res: dict[str, Any] = {"n": 0, "keys": [], "outcomes": {}, "violations": [], "undecided": [],
         "samples": []}
@@ -435,22 +492,14 @@ def explore_function(fc: FunctionCase, bound: int) -> dict:
     spellable = [p for p in drivable if p.kind in ("quantity", "seq", "qvector", "qvseq", "nested") and
         p.dim is not None and not p.dim.dimensionless]
     # default tuple: all at m0 in SI; otherwise the first accepted tuple, simplest first
+    from .c03 import in_child
+    fresh = in_child(lambda: first_call_results(fc, scalable, drivable), timeout=300)
     base_scales: dict = {}
     status, r, kw = fc.call({}, {})
     res["n"] += 1
     if status != "returned":
         found = False
-        menu = [1e-3, 1e3, 0.1, 10.0, -1.0]
-        cands = []
-        if any(p.kind == "qvector" for p in drivable):
-            cands.append({"__vshape__": "axis"})  # mutually perpendicular vector arguments
-        for p in scalable:
-            for s in menu:
-                cands.append({p.name: s})
-        for (p, q) in itertools.combinations(scalable, 2):
-            for s, t in itertools.product(menu[:4], repeat=2):
-                cands.append({p.name: s, q.name: t})
-        for sc in cands[:120]:
+        for sc in base_candidates(scalable, drivable)[1:]:
             status, r, kw = fc.call(sc, {})
             res["n"] += 1
             if status == "returned":
@@ -468,6 +517,41 @@ def explore_function(fc: FunctionCase, bound: int) -> dict:
         res["undecided"].append((fc.key, f"result not readable: {short(ex, 80)}"))
         return res
     count("mapped" if fc.mapping is not None else "unmapped")
+    # history: right after the base tuple, a tuple that differs from it in the fourth significant
+    # digit of every magnitude (a result must not depend on what was computed before); the base
+    # call is repeated at the very end
+    for variant in ("all", "quantities"):  # every magnitude, or only those of the quantities
+        near0 = near_tuple(base_scales, scalable, variant)
+        if near0 == base_scales:
+            continue
+        st_n, r_n, kw_n = fc.call(near0, {})
+        res["n"] += 1
+        if st_n == "returned":
+            count("returned")
+            res["keys"].append(fc.key + f"|near-after-base:{variant}")
+            # the same call made as the very first call of a fresh process gave ...
+            if isinstance(fresh, dict) and fresh.get("scales") == base_scales and variant in \
+                    fresh.get("results", {}):
+                try:
+                    same_fresh = struct_close(si_struct(r_n), _unplain(fresh["results"][variant]),
+                        1e-12)
+                except Exception:  # pylint: disable=broad-except
+                    same_fresh = True
+                if not same_fresh:
+                    res["violations"].append((fc.key + "|history", "called right after the base "
+                        f"tuple the function returns {short(si_struct(r_n), 80)}, as the first call "
+                        f"of a fresh process {short(fresh['results'][variant], 80)}", {"module":
+                        fc.modname, "function": fc.fname, "scales": near0, "spellings": {},
+                        "history": True}))
+                    continue
+            v_n = fc.residual(kw_n, r_n)
+            try:
+                if v_n and not _ill_conditioned(fc, near0, si_struct(r_n)):
+                    res["violations"].append((fc.key + "|law", v_n + " (called right after the base "
+                        "tuple)", {"module": fc.modname, "function": fc.fname, "scales": near0,
+                        "spellings": {}, "history": True}))
+            except Exception:  # pylint: disable=broad-except
+                pass
 
     def judge(scales: dict, spellings: dict, tag: str) -> None:
         st, rr, kk = fc.call(scales, spellings)
@@ -567,6 +651,20 @@ def explore_function(fc: FunctionCase, bound: int) -> dict:
         if quantities:
             judge({**base_scales, **{p.name: base_scales.get(p.name, 1.0) * g for p in quantities}},
                 {}, f"all-quantities:x{g:g}")
+    st_b2, r_b2, _ = fc.call(dict(base_scales), {})
+    res["n"] += 1
+    if st_b2 == "returned":
+        count("returned")
+        res["keys"].append(fc.key + "|repeated-base-call")
+        try:
+            same_again = struct_close(si_struct(r_b2), base_struct, 1e-12)
+        except Exception:  # pylint: disable=broad-except
+            same_again = True
+        if not same_again:
+            res["violations"].append((fc.key + "|history", "the base call gives another result "
+                f"after the other calls: {short(si_struct(r_b2), 80)} vs {short(base_struct, 80)}",
+                {"module": fc.modname, "function": fc.fname, "scales": base_scales, "spellings": {},
+                "history": True}))
     if not res["samples"]:
         res["samples"].append({"function": fc.key, "default_result": short(base_struct, 60),
             "mapped_to_law": fc.mapping is not None, "deviations": len(devs)})
@@ -790,6 +888,9 @@ def replay(case: dict) -> list[str]:
         allow = json.load(f)
     fn = dict(catalogue.functions(mod))[case["function"]]
     fc = FunctionCase(case["module"], mod, case["function"], fn, allow)
+    if case.get("history"):
+        r = explore_function(fc, 1)
+        return [v for k, v, c in r["violations"] if c.get("history")]
     if case.get("style"):
         st0, r0, _ = fc.call(case["scales"], {})
         st1, r1, _ = fc.call(case["scales"], {}, case["style"])
